@@ -150,6 +150,7 @@ def run_chunk(binary, profile, faults, base, count, outdir, deny, samples):
         cmd = [binary, 'run', '--profile', profile, '--seed-base', str(cur), '--count', str(end - cur), '--faults', str(faults), '--out', outdir, '--samples', str(samples)] + deny
         p = subprocess.run(cmd, stdout=subprocess.PIPE, stderr=subprocess.PIPE, text=True, errors='replace')
         inflight = None
+        term_op = ''
         done = set()
         for line in p.stdout.splitlines():
             if line.startswith('B '):
@@ -167,7 +168,8 @@ def run_chunk(binary, profile, faults, base, count, outdir, deny, samples):
             elif line.startswith('L '):
                 events.append(('L', line))
             elif line.startswith('T '):
-                pass
+                term_op = line.split()[2] if len(line.split()) > 2 else ''
+
             elif line.startswith('SAMPLE '):
                 f = line.split(' ', 2); events.append(('S', int(f[1]), f[2]))
             elif line.startswith('STATS '):
@@ -184,7 +186,7 @@ def run_chunk(binary, profile, faults, base, count, outdir, deny, samples):
             break
         kind, frame, ffile = classify_crash(p.stderr)
         if p.returncode == 78 and kind == 'crash':
-            kind = 'terminate'
+            kind = 'terminate'; frame = 'during ' + term_op; ffile = 'terminate'
         events.append(('C', inflight, kind, frame, ffile, p.stderr[-4000:]))
         cur = inflight + 1
     return events
@@ -206,7 +208,9 @@ def replay(binary, path, timeout=60):
     if p.returncode not in (0, 1):
         k, frame, ffile = classify_crash(p.stderr)
         if p.returncode == 78 and k == 'crash':
-            k = 'terminate'
+            k = 'terminate'; ffile = 'terminate'
+            m = re.search(r'^T \d+ (\S+)', p.stdout, re.M)
+            frame = 'during ' + (m.group(1) if m else '')
         out.update(kind='crash', crash=(k, frame, ffile), stderr=p.stderr[-3000:])
     return out
 
@@ -358,6 +362,11 @@ def matches_known(k, prop, cls, ops):
 
 def crash_props(kind, frame, ffile):
     props = ['C14']
+    if kind == 'terminate':
+        # a conforming reporter that throws on fatal only was made to throw through a noexcept function (C15)
+        props.append('C15')
+        if any(w in frame for w in ('watched', 'release_mon', 'req_destruction')):
+            props.append('C13')
     if ffile == 'lifetime.hpp':
         props.append('C13')
     if ffile == 'coro.hpp':
